@@ -26,6 +26,8 @@ object handles, on the repaired tree) and quantify over ALL message sequences `m
 * `wake_on_change`               report changes ⇒ listener woken            (repaired tree)
 * `wake_on_change_pinned_counterexample`   the same statement is FALSE for the pinned
                                  `_handle_remove_player` (defect D8), witness replayed by the harness
+* `wake_on_change_pinned_partial`  on the pinned tree the statement holds for every message
+                                 except "remove player <default player>" — D8 has no siblings
 * `position_clamped`             0 ≤ position ∧ (0 < total → position ≤ total), for total ≥ 0 or absent
 * `reported_position_clamped`    the same for the position inside every report of every history whose
                                  messages carry no negative duration
@@ -141,6 +143,29 @@ theorem wake_on_change_pinned_counterexample :
   revert this
   decide
 
+/-- **Pinned tree, partial.**  Full statement (false on the pinned tree, see the
+    counterexample above):
+      ∀ now msgs m, report now (reachPinned msgs) ≠ report now (stepPinned (reachPinned msgs) m).1
+                    → (stepPinned (reachPinned msgs) m).2 = true.
+    Proved: the same for every message that is not "remove player <default player>".  So D8
+    is the only way the pinned handlers miss a wake-up: the sibling cases — remove client,
+    update client, set-now-playing-player, removal of an explicitly chosen player, set state /
+    content-item update for the player being reported — are sound on the pinned tree too. -/
+theorem wake_on_change_pinned_partial (now : Int) (msgs : List Msg) (m : Msg)
+    (hnotD8 : ∀ p, m = .removePlayer p → p.player ≠ defaultPlayer)
+    (hchange : report now (reachPinned msgs) ≠ report now (stepPinned (reachPinned msgs) m).1) :
+    (stepPinned (reachPinned msgs) m).2 = true := by
+  obtain ⟨_, hi⟩ := reachPinned_sim msgs
+  cases hn : (stepPinned (reachPinned msgs) m).2 with
+  | true => rfl
+  | false =>
+    exfalso
+    apply hchange
+    obtain ⟨a, b⟩ := step_sim false (reachPinned msgs) m hi
+    unfold stepPinned at hn ⊢
+    rw [report_abs now _ b, a, report_abs now _ hi,
+      quiet_inert_G false now _ m hi hn (fun _ => hnotD8)]
+
 /-- **C11, position clamping** (`Playing._post_process`): for every integer position and
     every total time that is absent or non-negative, the reported position is never negative
     and never beyond a positive total time.  (A negative total is outside the property's
@@ -214,6 +239,14 @@ example :
 example : report 0 (reach d8Prefix) ≠ report 0 (step (reach d8Prefix) d8Msg).1 ∧
     (step (reach d8Prefix) d8Msg).2 = true ∧ (stepPinned (reachPinned d8Prefix) d8Msg).2 = false := by
   decide
+
+/-- `wake_on_change_pinned_partial`: a message allowed by its hypothesis that does change the
+    report on the pinned tree (removing the explicitly chosen, playing player 2). -/
+example :
+    let h : List Msg := [.setNowPlayingClient 1 none, .setNowPlayingPlayer ⟨1, none, 2⟩,
+      .setState ⟨1, none, 2⟩ (some .playing) none none]
+    report 0 (reachPinned h) ≠ report 0 (stepPinned (reachPinned h) (.removePlayer ⟨1, none, 2⟩)).1 ∧
+    (stepPinned (reachPinned h) (.removePlayer ⟨1, none, 2⟩)).2 = true := by decide
 
 /-- `position_clamped`: both clamps fire on inputs inside the domain. -/
 example : postProcess (some (-3)) (some 10) = some 0 ∧ postProcess (some 25) (some 10) = some 10 ∧
